@@ -3,6 +3,7 @@ From Coq Require Import ZArith List Bool Arith.
 From PlonkV Require Import Base.Fr Base.FrFacts Gates.Gate Gates.CS Gates.CSFacts
   Composer.State Composer.Components Composer.RangeFacts Curve.Jubjub Curve.JubjubFacts
   Composer.PointComponents Composer.PointFacts Composer.FixedFacts Composer.FixedSpec.
+From PlonkV Require Import Curve.Assoc Curve.GroupLaw Composer.GroupCorollaries.
 Import ListNotations.
 Local Open Scope fr_scope.
 
@@ -133,3 +134,19 @@ Check C14_mulgen_in_system : forall (PR : PrimeR) (ND : NonSquareD) pre post asg
     sd_val 0 ds = val (asg jubjub) /\
     (asg (fb_wx base 256), asg (fb_wy base 256)) = sd_point ed_id ds (rev (doublings 256 g)).
 Print Assumptions C14_mulgen_in_system.
+
+(* ---- with the group law: the component returns [scalar] G ---- *)
+Theorem C14_mulgen_scalar_multiple : forall (PR : PrimeR) (ND : NonSquareD) asg jubjub g n,
+  asg W_ZERO = fzero -> on_curve g ->
+  block_sat (mulgen_rows jubjub g n) asg ->
+  let base := (n + 253)%nat in
+  (val (asg jubjub) < rj)%Z /\
+  (asg (fb_wx base 256), asg (fb_wy base 256)) = zsmul (val (asg jubjub)) g.
+Proof. exact @mulgen_scalar_multiple. Qed.
+Check C14_mulgen_scalar_multiple : forall (PR : PrimeR) (ND : NonSquareD) asg jubjub g n,
+  asg W_ZERO = fzero -> on_curve g ->
+  block_sat (mulgen_rows jubjub g n) asg ->
+  let base := (n + 253)%nat in
+  (val (asg jubjub) < rj)%Z /\
+  (asg (fb_wx base 256), asg (fb_wy base 256)) = zsmul (val (asg jubjub)) g.
+Print Assumptions C14_mulgen_scalar_multiple.
